@@ -62,6 +62,12 @@ func (e *Engine) finalAxioms() []*smt.Term {
 // Solve discharges all obligations of the engine. timeoutS applies per query.
 func (e *Engine) Solve(dir string, timeoutS int, all bool, par chan struct{}) []OblResult {
 	axioms := e.finalAxioms()
+	// defining axiom of arr.splice (byte arrays): the spliced region comes from the source, the rest is unchanged
+	spl := "arr.splice." + sortTag(smt.BV(8))
+	if _, used := e.C.Funcs[spl]; used {
+		A := "(Array (_ BitVec 64) (_ BitVec 8))"
+		e.Extra = append(e.Extra, "(assert (forall ((a "+A+") (o (_ BitVec 64)) (s "+A+") (so (_ BitVec 64)) (n (_ BitVec 64)) (i (_ BitVec 64))) (! (= (select ("+spl+" a o s so n) i) (ite (and (bvsle o i) (bvslt i (bvadd o n))) (select s (bvadd so (bvsub i o))) (select a i))) :pattern ((select ("+spl+" a o s so n) i)))))")
+	}
 	results := make([]OblResult, len(e.Obls))
 	var pending []int
 	for i, o := range e.Obls {
@@ -84,6 +90,16 @@ func (e *Engine) Solve(dir string, timeoutS int, all bool, par chan struct{}) []
 		par <- struct{}{}
 		defer func() { <-par }()
 		return smt.Solve(script, dir, name, timeoutS, all)
+	}
+	// conjunctions of many obligations get a short budget: if they are not decided quickly, splitting is cheaper
+	runBatch := func(name, script string) smt.Result {
+		par <- struct{}{}
+		defer func() { <-par }()
+		t := timeoutS
+		if t > 6 {
+			t = 6
+		}
+		return smt.Solve(script, dir, name, t, false)
 	}
 	var wg sync.WaitGroup
 	var mu sync.Mutex
@@ -151,7 +167,7 @@ func (e *Engine) Solve(dir string, timeoutS int, all bool, par chan struct{}) []
 		script := e.C.Script(asserts, e.Extra, nil)
 		mu.Unlock()
 		t0 := time.Now()
-		r := runScript(fmt.Sprintf("%s__batch%d_%d", e.namePrefix, group[0], len(group)), script)
+		r := runBatch(fmt.Sprintf("%s__batch%d_%d", e.namePrefix, group[0], len(group)), script)
 		if r.Status == "unsat" {
 			for _, i := range group {
 				results[i].Status = "discharged"
